@@ -53,7 +53,9 @@ Label(v, path) ==
 Doc == Label(OV((IF shape.t = "absent" THEN <<>> ELSE << <<KA, shape>> >>)
                 \o (IF yv.t = "absent" THEN <<>> ELSE << <<KB, yv>> >>)), <<>>)
 
-Segs == { KA, KB, KA \o <<91, 48, 93>>, KA \o <<91, 49, 93>>, KB \o <<91, 48, 93>> }
+(* ... and a segment whose NAME is a number (`a.0`): a member name like any other - on an array it  *)
+(* addresses nothing (only `a[0]` indexes)                                                       *)
+Segs == { KA, KB, KA \o <<91, 48, 93>>, KA \o <<91, 49, 93>>, KB \o <<91, 48, 93>>, <<48>> }
 RECURSIVE JoinDot(_)
 JoinDot(ss) == IF Len(ss) = 1 THEN ss[1] ELSE ss[1] \o <<46>> \o JoinDot(Tail(ss))
 Keys == {JoinDot(ss) : ss \in UNION {[1..k -> Segs] : k \in 1..PathLen}}
